@@ -1,7 +1,10 @@
 import Qentem.Proofs.TmplText
 import Qentem.Proofs.ExprScanSafe
+import Qentem.Proofs.ExprScanTotal
 import Qentem.Proofs.TmplRenderSafe
 import Qentem.Proofs.TmplParseVarRaw
+import Qentem.Proofs.TmplLoopVar
+import Qentem.Proofs.TmplParseLoop
 import Qentem.Generated.Tmpl
 /-!
 # C01 — rendering any template text with any value is memory-safe and terminates
@@ -85,6 +88,13 @@ theorem expr_scan_safe {R : Type} (cfg : ScanCfg R) (c : List Nat) (off endO : N
     (he : endO < c.length) : Safe (parseTop cfg c off endO) (fun _ => True) :=
   parseTop_safe cfg c off endO he
 
+/-- `expr_scan_total`: under the same hypothesis the scanner model returns a list — neither a
+failed read nor an exhausted fuel; so `expr_scan_safe` and the `Safe` statements built on it are
+not vacuous through the model's fuel. -/
+theorem expr_scan_total {R : Type} (cfg : ScanCfg R) (c : List Nat) (off endO : Nat)
+    (he : endO < c.length) : ∃ items, parseTop cfg c off endO = .ok items :=
+  parseTop_total cfg c off endO he
+
 /-- the hypothesis is needed: the public `ParseExpressions("1<", 2)` looks one unit past the
 buffer (out of contract: no terminator).  Observed on the real code as an ASan report. -/
 example : getOperation [49, 60] 2 10 0 = .error (.oobRead 2 2) := by rfl
@@ -143,6 +153,50 @@ theorem render_safe_inline {R : Type} [RealLike R] (cx : RCtx R) (hg : cx.guardI
 /-- non-vacuity: `{math:({var:a}+1)*2}}{var:b}` satisfies the hypothesis -/
 example : OnlyUpTo 4 ("{math:({var:a}+1)*2}}{var:b}".toList.map Char.toNat) :=
   onlyUpTo_of_check 4 _ (by decide)
+
+/-- `parse_wf`, stage "loops": if from no offset the Finder reports anything but `}`, `{var:`,
+`{raw:`, `{math:`, `<loop`, `</loop>` (`OnlyLoops`; decidable form `onlyLoopsB`), the tag scanner
+makes no out-of-range read and what it returns is well-formed — for every nesting depth, every
+attribute text (`set=`, `value=`, `sort=`, `group=`, in any order, repeated, unterminated, beyond
+the 8-bit offset fields), closed, unclosed or stray `</loop>`, loop-bound variables in `{var:}`,
+`{raw:}`, `{math:}` and `set=`.  Covers the length-unchecked comparisons of `checkLoopVariable`
+(`checkLoopVariable_safe`) at all their call sites: the invariant `ChainOk` (a loop's value text
+lies inside the content and holds neither `}` nor `>`) is kept by `stepLoop` (Finder facts
+`next_facts`, `parseLoopAttributes_safe`). -/
+theorem parse_wf_loops {R : Type} (cfg : ScanCfg R) (c : List Nat)
+    (hn : c.length + 16 < 4294967296) (h : OnlyLoops c) :
+    Safe (parse cfg c) (fun tags => wf c.length tags = true) :=
+  Qentem.Tmpl.parse_wf_loops cfg c hn h
+
+/-- End-to-end for that sub-language: parse + render makes no out-of-range access, for every
+value, formatter, escape setting, sort and group function. -/
+theorem render_safe_loops {R : Type} [RealLike R] (cx : RCtx R) (hg : cx.guardIndexRead = true)
+    (cfg : ScanCfg R) (hn : cx.content.length + 16 < 4294967296) (h : OnlyLoops cx.content)
+    (fuel : Nat) :
+    Safe ((parse cfg cx.content).bind (fun tags => renderTop cx tags fuel)) (fun _ => True) :=
+  Qentem.Tmpl.render_safe_loops cx hg cfg hn h fuel
+
+set_option maxRecDepth 20000 in
+/-- non-vacuity: a loop with a loop-bound variable, a stray `</loop>` and an unclosed loop -/
+example : OnlyLoops ("<loop value='v'>{var:v}</loop></loop><loop>{math:1}".toList.map Char.toNat) :=
+  onlyLoops_of_check _ (by decide)
+
+/-- what a Finder result says about the content (lemma L1 of the staged proof) -/
+theorem finder_facts (c : List Nat) (hn : c.length + 16 < 4294967296) (off o m : Nat)
+    (hoff : off ≤ c.length) (h : next c off = .ok (o, m)) : NextFacts c off o m :=
+  next_facts c hn off o m hoff h
+
+/-- `checkLoopVariable` compares the variable text with every enclosing loop's value name by
+`IsEqual(var, value, ValueLength)` without looking at the variable's own length.  No read leaves
+the content when (a) every value text of the chain lies inside the content and contains neither
+`}` nor `>` and (b) a `}` or `>` follows the variable text inside the content — both hold at every
+call site (the value text lies in a `<loop …>` tag interior delimited by the Finder and the `>`
+search; every variable text is closed by its tag's `}` / `>`).  Missing for `ParseWF` on
+`<loop>` / `<if>`: (a) as an invariant of `stepLoop` (see notes/design-tmpl.md). -/
+theorem checkLoopVariable_safe (c : List Nat) (varOff : Nat) (chain : List LoopRef)
+    (hch : ChainOk c chain) (hstop : ∃ j x, varOff ≤ j ∧ c[j]? = some x ∧ isStop x) :
+    Safe (checkLoopVariable c varOff chain) (fun _ => True) :=
+  Qentem.Tmpl.checkLoopVariable_safe c varOff chain hch hstop
 
 /-- Open statement: what `parse` returns is well-formed (`parse_wf`).  Evaluated on every generated
 and malformed template of `checks/c01.py` through the driver op `tplwf`. -/
